@@ -264,3 +264,87 @@ func runKmux(r *rng, n int) {
 		emit("kmux batch=%d fault=%s at=%d => foreign=%d hung=%d duptag=%d reuse=%s errsok=%d laterok=%d", batch, fault, faultAt, foreign, hung, dt, strings.Join(srv.reuse, ","), errsOK, laterOK)
 	}
 }
+
+// runKmuxfid: a fid whose Tclunk is on the wire but not yet answered is still bound on the server;
+// a concurrent allocation (a clone walk) must not be given that number (C10: "no fid handed out
+// while still bound").
+func runKmuxfid(r *rng, n int) {
+	for i := 0; i < n; i++ {
+		a, b := connPair()
+		srv := &muxServer{c: b, bound: map[uint32]bool{}}
+		clones := 1 + r.intn(4)
+		step := func() (byte, uint16, []byte, bool) {
+			t, tag, body, err := srv.read()
+			if err != nil {
+				return 0, 0, nil, false
+			}
+			return t, tag, body, true
+		}
+		done := make(chan struct{})
+		go func() {
+			defer close(done)
+			for k := 0; k < 2+clones; k++ {
+				if t, tag, body, ok := step(); ok {
+					srv.c.Write(srv.reply(t, tag, body))
+				}
+			}
+		}()
+		c, err := p9.NewClient(a)
+		if err != nil {
+			panic(err)
+		}
+		root, err := c.Attach("")
+		if err != nil {
+			panic(err)
+		}
+		var files []p9.File
+		for k := 0; k < clones; k++ {
+			_, f, err := root.Walk(nil)
+			if err != nil {
+				panic(err)
+			}
+			files = append(files, f)
+		}
+		<-done
+		victim := files[r.intn(len(files))]
+		vfid, _ := p9.VerifFileFID(victim)
+		closed := make(chan error, 1)
+		go func() { closed <- victim.Close() }()
+		// the Tclunk arrives; its answer is withheld
+		t1, tag1, body1, ok1 := step()
+		reuse, formed := 0, 0
+		if ok1 && t1 == 120 && uint64(binary.LittleEndian.Uint32(body1)) == vfid {
+			formed = 1
+			walked := make(chan p9.File, 1)
+			go func() {
+				_, f, err := root.Walk(nil)
+				if err != nil {
+					walked <- nil
+					return
+				}
+				walked <- f
+			}()
+			if t2, tag2, body2, ok2 := step(); ok2 && t2 == 110 {
+				if uint64(binary.LittleEndian.Uint32(body2[4:])) == vfid {
+					reuse = 1
+				}
+				srv.c.Write(srv.reply(t2, tag2, body2))
+			}
+			srv.c.Write(srv.reply(t1, tag1, body1))
+			select {
+			case f := <-walked:
+				if f != nil {
+					files = append(files, f)
+				}
+			case <-time.After(3 * time.Second):
+			}
+			select {
+			case <-closed:
+			case <-time.After(3 * time.Second):
+			}
+		}
+		a.Close()
+		b.Close()
+		emit("kmuxfid clones=%d => formed=%d inflight_reuse=%d", clones, formed, reuse)
+	}
+}
